@@ -534,6 +534,9 @@ class BMSMap(Map[BMSNoteList, BMSHitList, BMSHoldList, BMSBpmList], BMSMapMeta):
             columns=["snap", "channel", "value"],
         )
         df["measure"] = [i.measure for i in df["snap"]]
+        if df["measure"].max() > 999:
+            # The measure of a line is 3 digits, it can't denote more
+            raise ValueError("BMS cannot denote objects beyond measure 999.")
         df["den"] = [i.beat.denominator * i.metronome for i in df["snap"]]
         df["num"] = [i.beat.numerator for i in df["snap"]]
         df["den"] = df["den"].astype(int)
